@@ -653,6 +653,43 @@ impl<R, F: LabelFilter> TracingContext<R, F> {
 //@END
 }
 
+// ------------------------------------------------------------------ the three register_* methods of TracingContext
+#[derive(Clone, Copy, PartialEq, Eq)] pub enum MKind { Counter, Gauge, Histogram }
+#[verifier::external_body] pub struct Metadata<'a> { _p: core::marker::PhantomData<&'a u8> }
+#[verifier::external_body] pub struct Counter { _p: [u8; 0] }
+#[verifier::external_body] pub struct Gauge { _p: [u8; 0] }
+#[verifier::external_body] pub struct Histogram { _p: [u8; 0] }
+/// metrics::Recorder (the inner recorder): which key it may be handed for which kind is fixed by the caller's contract, so that
+/// "what reaches the inner recorder" becomes an obligation at the forwarding call
+pub trait Recorder {
+    spec fn accepts(&self, kind: MKind, key: Key) -> bool;
+    fn register_counter(&self, key: &Key, metadata: &Metadata<'_>) -> Counter requires self.accepts(MKind::Counter, *key);
+    fn register_gauge(&self, key: &Key, metadata: &Metadata<'_>) -> Gauge requires self.accepts(MKind::Gauge, *key);
+    fn register_histogram(&self, key: &Key, metadata: &Metadata<'_>) -> Histogram requires self.accepts(MKind::Histogram, *key);
+}
+impl<R: Recorder, F: LabelFilter> TracingContext<R, F> {
+    /// the key enhance_key computes for `key` under the current span (None: no span / no fields / no layer) -- its construction is
+    /// the contract of `enhanced` above; the dispatcher lookup around it is not modelled
+    pub uninterp spec fn spec_enhance(&self, key: Key) -> Option<Key>;
+    #[verifier::external_body]
+    fn enhance_key(&self, key: &Key) -> (r: Option<Key>) ensures r == self.spec_enhance(*key) { unimplemented!() }
+    /// the key the inner recorder must see: the enhanced key if there is one, else the caller's key unchanged
+    pub open spec fn forwarded(&self, key: Key) -> Key { match self.spec_enhance(key) { Some(k) => k, None => key } }
+
+//@ITEM file=metrics-tracing-context/src/lib.rs sel=impl<R, F> Recorder for TracingContext<R, F>.* :: fn register_counter
+//@SPEC
+    requires forall|k: Key| #[trigger] self.inner.accepts(MKind::Counter, k) <==> k == self.forwarded(*key),
+//@END
+//@ITEM file=metrics-tracing-context/src/lib.rs sel=impl<R, F> Recorder for TracingContext<R, F>.* :: fn register_gauge
+//@SPEC
+    requires forall|k: Key| #[trigger] self.inner.accepts(MKind::Gauge, k) <==> k == self.forwarded(*key),
+//@END
+//@ITEM file=metrics-tracing-context/src/lib.rs sel=impl<R, F> Recorder for TracingContext<R, F>.* :: fn register_histogram
+//@SPEC
+    requires forall|k: Key| #[trigger] self.inner.accepts(MKind::Histogram, k) <==> k == self.forwarded(*key),
+//@END
+}
+
 // ------------------------------------------------------------------ the two shipped filters against the trait's contract
 pub uninterp spec fn txt(s: SharedString) -> Seq<char>;
 pub mod str_axioms {
